@@ -100,18 +100,18 @@ type Type struct {
 	Dims         []Dim   // KArray when HasDims
 }
 
-func Prim(p string) *Type           { return &Type{Kind: KPrim, Prim: p} }
+func Prim(p string) *Type { return &Type{Kind: KPrim, Prim: p} }
 func Ref(ns, name string, args ...*Type) *Type {
 	return &Type{Kind: KRef, Ns: ns, Name: name, Args: args}
 }
-func Param(n string) *Type    { return &Type{Kind: KParam, Name: n} }
-func Optional(t *Type) *Type  { return &Type{Kind: KOptional, Elem: t} }
-func Vector(t *Type) *Type    { return &Type{Kind: KVector, Elem: t} }
+func Param(n string) *Type   { return &Type{Kind: KParam, Name: n} }
+func Optional(t *Type) *Type { return &Type{Kind: KOptional, Elem: t} }
+func Vector(t *Type) *Type   { return &Type{Kind: KVector, Elem: t} }
 func FixedVector(t *Type, n uint64) *Type {
 	return &Type{Kind: KVector, Elem: t, Len: &n}
 }
-func Map(k, v *Type) *Type  { return &Type{Kind: KMap, Key: k, Elem: v} }
-func Stream(t *Type) *Type  { return &Type{Kind: KStream, Elem: t} }
+func Map(k, v *Type) *Type   { return &Type{Kind: KMap, Key: k, Elem: v} }
+func Stream(t *Type) *Type   { return &Type{Kind: KStream, Elem: t} }
 func DynArray(t *Type) *Type { return &Type{Kind: KArray, Elem: t} }
 
 // IsFixedArray reports whether all dimensions have lengths.
